@@ -338,9 +338,19 @@ def streams(ck: Check) -> None:
         family("dtype-nitems", 4, 4, [[1, 1, n]], rows, (n + 15) // 16, 2, 1, 2)
         family("dtype-nitems", 4, 4, [[1, 1, n]], [[1, i + 1, 0, 0, 1, 1] for i in range(n)], n, 0, 0, 1)
     for m in (63, 64, 127, 128, 16383, 16384, 32767, 2**30, 2**31, 10**9):   # max_dim + max_size + 1 at the edges
-        h = m if m < 1000 else rng.randint(3, 30)
-        items, rows = guillotine_packing(rng, m, h, 2, 3, True)
-        family("dtype-threshold", m, h, items, rows, 2, 2, 1, 2)
+        if m < 1000:
+            items, rows = guillotine_packing(rng, m, m, 2, 3, True)
+            family("dtype-threshold", m, m, items, rows, 2, 2, 1, 2)
+            continue
+        # wide flat bin (the constructor's lower bound loops over min(W,H)/2 and over w/h per item: keep items small),
+        # layout built in a 60-wide window, part of it shifted to the right edge of the bin
+        h = rng.randint(3, 30)
+        items, rows = guillotine_packing(rng, 60, h, 2, 3, True)
+        for r in rows:
+            if rng.random() < 0.5:
+                r[2] += m - 60
+                r[4] += m - 60
+        family("dtype-threshold", m, h, items, rows, 2, 2, 1 if m < 40000 else 0, 2)
     # the known int64 wrap-around of (bins-1)*W*H (reported; see Props/C02.lean `int64_wrap_witness`)
     family("int64-range", 10**12, 10**6, [[1, 1, 12]], [[1, i + 1, 0, 0, 1, 1] for i in range(12)], 12, 0, 0, 0)
     family("int64-range", 10**12, 9 * 10**5, [[1, 1, 10]], [[1, i + 1, 0, 0, 1, 1] for i in range(10)], 10, 0, 0, 0)
@@ -384,14 +394,14 @@ def streams(ck: Check) -> None:
         case = {"W": impl.W, "H": impl.H, "items": impl.items, "rows": c["rows"], "k": c["k"]}
         if big:
             case = {"W": impl.W, "H": impl.H, "n_items": impl.n, "k": c["k"], "op_index": i}
-        wraps = any(isinstance(v, int) and not (-2**63 <= int(s) < 2**63) for v, s in
-                    zip(vals, (d.get("v", "") or "").split(",")) if s not in ("OOB", "ERR", ""))
-        # B: kernel values, bound formulas, to_bin_count formulas
+        # beyond n_items*W*H >= 2^63 the int64 kernels wrap (known finding `int64-wrap`); the unbounded model cannot agree there
+        wraps = impl.n * impl.W * impl.H >= 2**63
+        # B: kernel values, bound formulas, to_bin_count formulas (beyond the int64 range: only the three count-type objectives)
+        ncmp = 3 if wraps else 7
         if wraps:
-            ck.count("model_value_outside_int64")   # the unbounded model cannot agree with an int64 kernel here
-        else:
-            ck.compare(c["stream"], line[:600], d.get("v", mout), ",".join(str(v) for v in vals))
-            ck.compare(c["stream"] + ":to_bin_count", line[:600], d.get("tb", mout), ",".join(c["tb"]))
+            ck.count("beyond_int64_range")
+        ck.compare(c["stream"], line[:600], ",".join(d.get("v", mout).split(",")[:ncmp]), ",".join(str(v) for v in vals[:ncmp]))
+        ck.compare(c["stream"] + ":to_bin_count", line[:600], ",".join(d.get("tb", mout).split(",")[:ncmp]), ",".join(c["tb"][:ncmp]))
         ck.compare(c["stream"] + ":bounds", line[:600], f"{d.get('lo')} {d.get('up')}",
                    ",".join(map(str, impl.lo)) + " " + ",".join(map(str, impl.up)))
         feas = d.get("feas") == "true"
@@ -405,16 +415,16 @@ def streams(ck: Check) -> None:
         specs = d.get("s", "").split(",")
         for j, nm in enumerate(NAMES):
             v = vals[j]
-            key_sfx = "int64-wrap" if wraps else nm
+            wr = wraps and j >= 3          # known finding: only the area/skyline objectives, only beyond the int64 range
             if isinstance(v, str):
                 ck.spec(False, f"error-{nm}", f"{nm} raised {v} on a feasible packing", case)
                 continue
             if specs[j] != "x":
-                ck.spec(str(v) == specs[j], f"value-{key_sfx}" if not wraps else "int64-wrap",
+                ck.spec(str(v) == specs[j], "int64-wrap" if wr else f"value-{nm}",
                         f"{nm}.evaluate = {v} but the documented value is {specs[j]}", case)
-            ck.spec(impl.lo[j] <= v <= impl.up[j], f"bounds-{key_sfx}" if not wraps else "int64-wrap",
+            ck.spec(impl.lo[j] <= v <= impl.up[j], "int64-wrap" if wr else f"bounds-{nm}",
                     f"{nm}.evaluate = {v} outside [lower_bound, upper_bound] = [{impl.lo[j]}, {impl.up[j]}]", case)
-            ck.spec(c["tb"][j] == str(c["k"]), f"tobin-{key_sfx}" if not wraps else "int64-wrap",
+            ck.spec(c["tb"][j] == str(c["k"]), "int64-wrap" if wr else f"tobin-{nm}",
                     f"{nm}.to_bin_count({v}) = {c['tb'][j]} but the packing uses {c['k']} bins", case)
         geo = int(d.get("geo", "0"))
         ck.spec(geo <= impl.lb <= c["k"], "lower_bound_bins",
@@ -435,7 +445,7 @@ def streams(ck: Check) -> None:
                         if isinstance(va, str) or isinstance(vb, str):
                             continue
                         impl = ctx[i]["impl"]
-                        wr = impl.n * impl.W * impl.H >= 2**63
+                        wr = impl.n * impl.W * impl.H >= 2**63 and j >= 3
                         ck.spec(va < vb, "int64-wrap" if wr else f"dominance-{nm}",
                                 f"{nm}: packing with {a} bins scores {va}, packing with {b} bins scores {vb}",
                                 {"W": impl.W, "H": impl.H, "items": impl.items if len(impl.items) < 40 else "<many>",
